@@ -340,7 +340,7 @@ def check_regmap(desc, res):
         claim(a, "launch " + k)
     claim(barrier, "barrier")
     cls = desc[0]
-    if cls in ("alu", "gemmx") and "launch_streamer" in lfields:
+    if cls in ("alu", "gemmx", "phs") and "launch_streamer" in lfields:
         claim(lfields["launch_streamer"] + 1, "reserved streamer busy register")
         claim(lfields["launch_streamer"] + 2, "reserved streamer performance counter")
     if cls == "xdma":
@@ -359,8 +359,15 @@ def check_regmap(desc, res):
         )
     if set(op.launch_fields.data.keys()) != set(acc.launch_fields):
         out.append({"kind": "declared-launch-fields-differ", "detail": f"{list(op.launch_fields.data.keys())} vs {list(acc.launch_fields)}", "case": {"desc": desc, "regmap": True}})
+    if cls == "phs":
+        R.bump(res, "regmaps_checked_phs")
+        n_sw = acc.pe.get_true_switches()
+        got = [k for k in declared if k.startswith("phs_switch_")]
+        if len(got) != n_sw:
+            out.append({"kind": "declared-fields-differ-from-setup-fields", "detail": f"{len(got)} switch fields declared, the PE has {n_sw} switches", "case": {"desc": desc, "regmap": True}})
+        R.seen(res, "phs_switch_counts", n_sw)
     if not out:
-        R.nontrivial(res, "regmap", repr(desc))
+        R.nontrivial(res, "regmap", repr(desc) if cls != "phs" else ("phs", len(declared), tuple(sorted(fields.values()))))
     return out
 
 
@@ -401,6 +408,12 @@ def run_shard(seed, shard, n_cases, tier):
         d = AD.gen_desc(rng, p_default=0.0)
         for v in check_regmap(d, res):
             R.violation(res, v["kind"], v["detail"], v["case"], attribute(v), info=v.get("info"))
+    # PHS instances: PE graphs from the real encoder / merge over generated kernel histories (0..n switches), generated templates
+    rng_phs = random.Random(seed ^ 0x9E3779B9)
+    for _ in range(n_cases):
+        d = AD.gen_phs_desc(rng_phs)
+        for v in check_regmap(d, res):
+            R.violation(res, v["kind"], v["detail"], v["case"], attribute(v), info=v.get("info"))
     # monitors 1 and 3
     for i in range(n_cases):
         rocc = rng.random() < 0.25
@@ -419,13 +432,32 @@ def run_shard(seed, shard, n_cases, tier):
         R.seen(res, "accelerator_classes", desc[0])
         if i < 1 and shard == 0:
             R.sample(res, {"accelerator": repr(desc), "pipeline": pre, "program": prog.text[:3000], "vector": vecs[0][1]})
+    # the same lowering monitors for PHS instances (switch fields between the streamer launch register and loop_bound_alu)
+    for i in range(max(1, n_cases // 6)):
+        desc = AD.gen_phs_desc(rng_phs)
+        try:
+            spec = AD.spec_of(AD.build(desc))
+        except Exception as e:
+            R.reject(res, e)
+            continue
+        prog = gen_program(rng_phs, acc_specs=[spec], vt="i32", max_launches=5)
+        vecs = input_vectors(prog, rng_phs, 3)
+        pre = "accfg-trace-states,accfg-dedup" + (",accfg-config-overlap" if rng_phs.random() < 0.5 else "")
+        before = res["compared"]
+        for v in run_program(desc, prog.text, [a.name for a in prog.args], vecs, pre, res, prog.skeleton):
+            R.violation(res, v["kind"], v["detail"], v["case"], attribute(v), info=v.get("info"))
+        R.bump(res, "phs_program_executions_compared", res["compared"] - before)
+        R.seen(res, "accelerator_classes", "phs")
     return res
 
 
 def replay(case, res=None):
     res = res if res is not None else R.new_result()
     desc = case["desc"]
-    desc = (desc[0], [tuple(tuple(x) if isinstance(x, list) else x for x in sd) for sd in desc[1]] if desc[1] else None, tuple(desc[2]) if desc[2] else None)
+    if desc[0] == "phs":
+        desc = ("phs", None, tuple(tuple(x) for x in desc[2]))
+    else:
+        desc = (desc[0], [tuple(tuple(x) if isinstance(x, list) else x for x in sd) for sd in desc[1]] if desc[1] else None, tuple(desc[2]) if desc[2] else None)
     if case.get("regmap"):
         return check_regmap(desc, res)
     vecs = [((), case["vec"])] if case.get("vec") else []
